@@ -136,6 +136,11 @@ def make_matrix(method, eff_form, shape, spec, dtype, variant=""):
     m, n = shape
     inp = DOC[method]["inp"]
     k = min(m, n)
+    if spec == "zero":
+        # the exactly zero matrix: hermitian, rank 0; not positive definite / full rank
+        if inp in ("pd", "fullrank") or (inp == "herm" and m != n):
+            return None
+        return np.zeros((m, n), dtype=dtype)
     s = spectrum_for(spec, k)
     key = ("c05", m, n, spec, variant)
     if inp in ("herm", "pd"):
@@ -265,6 +270,73 @@ def tolerances(prec, dtype, kind):
     return t
 
 
+def _check_zero_input(P, obs, x, l, s, r, k, eff_form, kind, prec, trunc, info, shape_domain):
+    """The exactly zero matrix (every value fails every cutoff rule): at least
+    one value is kept (checked by the caller), the cap holds, everything that
+    carries the values is exactly zero and finite, isometric factors of the
+    backward stable drivers are still isometric, reported error is 0."""
+    m, n = x.shape
+    d = min(m, n)
+    cutoff, mode, max_bond, p = trunc["cutoff"], trunc["mode"], trunc["max_bond"], trunc["p"]
+    cap = max_bond if (max_bond is not None and max_bond > 0) else None
+    obs["truncated"] = False
+    obs["zero"] = True
+    if kind in ("svd", "static", "iter") and cap is not None and k > cap:
+        P.append(("cap", "kept %d values with max_bond=%d" % (k, cap)))
+    if kind in ("svd", "static", "iter", "lu") and k > d:
+        P.append(("cap", "kept %d values of a %dx%d matrix" % (k, m, n)))
+    if kind == "svd":
+        if cutoff is not None and cutoff > 0:
+            kexp = 1  # every value fails the rule; never zero
+        elif p > 0:
+            kexp = None  # rule evaluated with a non-positive cutoff on exact zeros: 1 .. d all consistent
+        else:
+            kexp = d if cap is None else min(d, cap)
+        if kexp is not None and k != kexp:
+            P.append(("rank", "zero matrix: kept %d values, documented rule (%s, cutoff=%r, max_bond=%r) gives %d" % (k, mode, cutoff, max_bond, kexp)))
+    elif kind == "static":
+        kexp = d if cap is None else min(d, cap)
+        if k != kexp:
+            P.append(("rank", "zero matrix: kept %d values, static rule gives %d" % (k, kexp)))
+    if s is not None and np.any(np.asarray(s) != 0):
+        P.append(("values", "zero matrix: non-zero values returned %s" % np.asarray(s).tolist()))
+    if l is not None and r is not None:
+        lc = np.asarray(l, dtype=np.complex128)
+        rc = np.asarray(r, dtype=np.complex128)
+        recon = (lc * np.asarray(s, dtype=np.complex128)[None, :]) @ rc if s is not None else lc @ rc
+        if np.any(recon != 0):
+            P.append(("product", "zero matrix: product of the factors is not zero (max %.3e)" % float(np.max(np.abs(recon)))))
+    if l is not None and LPOW.get(eff_form, 0) > 0 and r is None and np.any(np.asarray(l) != 0):
+        P.append(("gram", "zero matrix: %s factor is not zero" % fname(eff_form)))
+    if r is not None and RPOW.get(eff_form, 0) > 0 and l is None and np.any(np.asarray(r) != 0):
+        P.append(("gram", "zero matrix: %s factor is not zero" % fname(eff_form)))
+    il, ir = ISO.get(eff_form, (0, 0))
+    ok_to_assert = (il or ir) and prec != "gram" and shape_domain and kind in ("svd", "static", "exact")
+    if il or ir:
+        obs["iso_asserted"] = bool(ok_to_assert)
+    if ok_to_assert:
+        tol = tolerances(prec, x.dtype, kind)
+        if il and l is not None:
+            lc = np.asarray(l, dtype=np.complex128)
+            dfc = float(np.max(np.abs(_H(lc) @ lc - np.eye(k))))
+            if dfc > tol["iso"] * 10:
+                P.append(("isometry", "zero matrix: left factor documented isometric for form %s: |L^H L - 1| = %.3e" % (fname(eff_form), dfc)))
+        if ir and r is not None:
+            rc = np.asarray(r, dtype=np.complex128)
+            dfc = float(np.max(np.abs(rc @ _H(rc) - np.eye(k))))
+            if dfc > tol["iso"] * 10:
+                P.append(("isometry", "zero matrix: right factor documented isometric for form %s: |R R^H - 1| = %.3e" % (fname(eff_form), dfc)))
+    if info is not None:
+        e = info.get("error", None)
+        if e is None:
+            P.append(("info-error", "info['error'] was not filled in"))
+        else:
+            e = float(np.asarray(e).reshape(-1)[0])
+            if not (e == 0.0):
+                P.append(("info-error", "zero matrix: reported truncation error %r" % e))
+    return P, obs
+
+
 def check_split(x, out, eff_form, base, kind, prec, trunc, info=None, shape_domain=True):
     """Evaluate one (left, s, right) result against the property.
 
@@ -312,7 +384,7 @@ def check_split(x, out, eff_form, base, kind, prec, trunc, info=None, shape_doma
     nrm = _fro(x64)
     sref = np.linalg.svd(x64, compute_uv=False)
     if nrm == 0:
-        return P, obs
+        return _check_zero_input(P, obs, x, l, s, r, k, eff_form, kind, prec, trunc, info, shape_domain)
     s0 = float(sref[0])
     spad = np.concatenate([sref, np.zeros(max(0, k - d))])
     cutoff, mode, max_bond, p = trunc["cutoff"], trunc["mode"], trunc["max_bond"], trunc["p"]
@@ -511,6 +583,10 @@ ROOT_CHECKS = {
     "iterative-renorm-partial-spectrum": ("renorm",),
     "matrix-svals-with-absorbed-form": ("bond", "network"),
     "option-memo-conflates-True-and-1": ("history",),
+    "svd-eig-zero-matrix": ("crash:ZeroDivisionError", "nonfinite"),
+    "renorm-zero-matrix": ("crash:ZeroDivisionError", "nonfinite"),
+    "lu-empty-bond": ("rank-zero",),
+    "isvd-zero-matrix": ("unexpected-rejection:ValueError",),
 }
 
 
@@ -529,7 +605,7 @@ class Roots(list):
         return bool(self)
 
 
-def root_of(method, base, form, eff_form, dtype, impl, cutoff, mode, max_bond, p, variant="", nonpos=False, shape=None):
+def root_of(method, base, form, eff_form, dtype, impl, cutoff, mode, max_bond, p, variant="", nonpos=False, shape=None, zero=False):
     """Structural facts of the CASE that select a known defective code path;
     never derived from the failure.  Several may apply to one case: the
     signature of a violation names the first one that can affect the failing
@@ -562,6 +638,18 @@ def root_of(method, base, form, eff_form, dtype, impl, cutoff, mode, max_bond, p
             c.append("generic-renorm-power-from-mode")
     if DOC[base]["kind"] == "iter" and p > 0:
         c.append("iterative-renorm-partial-spectrum")
+    if zero and base == "svd:eig":
+        # U = x V / s (or VH = U^H x / s) with the damping cutoff of the safe inverse = smax * eps = 0: 0 / 0
+        c.append("svd-eig-zero-matrix")
+    if zero and p > 0 and DOC[base]["kind"] in ("svd", "iter"):
+        # renormalisation factor = (kept + lost) / kept = 0 / 0
+        c.append("renorm-zero-matrix")
+    if zero and base == "isvd" and shape is not None and max_bond is not None and 0 < max_bond <= min(shape) // 2:
+        # the genuinely iterative path: scipy.linalg.interpolative.svd(zeros, k) produces NaN internally
+        c.append("isvd-zero-matrix")
+    if base == "lu" and (zero or (cutoff is not None and cutoff >= 0)):
+        # lu_truncated keeps the columns above the cutoff, without an 'at least one' clamp
+        c.append("lu-empty-bond")
     # the narrowest explanation first: a root that can only affect one clause wins over a
     # root that garbles everything (so repairing the broad one leaves no stale attribution)
     c.sort(key=lambda r: len(ROOT_CHECKS[r]))
@@ -666,7 +754,7 @@ def evaluate(x, method, form, cutoff, mode, max_bond, renorm, impl, use_info, dt
         # structural fact of the input: an eigenvalue that is zero / negative up to rounding
         ev = np.linalg.eigvalsh(np.asarray(x, dtype=np.complex128))
         nonpos = bool(ev[0] <= 64 * eps_of(dtype) * max(abs(ev[-1]), abs(ev[0])))
-    roots = root_of(method, base, form, eff, dtype, impl, cutoff, mode, mb, p, variant, nonpos, shape=tuple(x.shape))
+    roots = root_of(method, base, form, eff, dtype, impl, cutoff, mode, mb, p, variant, nonpos, shape=tuple(x.shape), zero=not np.any(x))
     sub = "|".join([impl, "i" if use_info else "-", mode, repr(cutoff), repr(mb), repr(renorm)])
 
     def bad(check, msg, **more):
@@ -710,8 +798,8 @@ def evaluate(x, method, form, cutoff, mode, max_bond, renorm, impl, use_info, dt
     stable_k = kind != "iter"
     outc = "%s:%s:%s%s%s" % (
         kind,
-        "trunc" if obs.get("truncated") else "full",
-        ("k=%d" % k) if stable_k else "k=*",
+        "zero" if obs.get("zero") else "trunc" if obs.get("truncated") else "full",
+        ("k=%d" % k) if (stable_k or obs.get("zero")) else "k=*",
         "" if obs.get("decided", True) else ":rank-undecided",
         ":renorm" if p and obs.get("truncated") else "",
     )
@@ -756,6 +844,43 @@ def cell_A(cell, common):
             continue
         for impl in impls:
             for use_info in ((False, True) if (d["info"] and impl != "x") else (False,)):
+                res.append(evaluate(x, method, form, cutoff, mode, mb, renorm, impl, use_info, dtype, spec=spec))
+    return res
+
+
+# --------------------------------------------------------------------------- #
+#        table E: everything fails the rule (never keep zero values)          #
+# --------------------------------------------------------------------------- #
+
+E_CUTOFFS = [1.0, 2.0, 50.0]  # at / above the largest value (abs), >= 1 (rel), above the total weight (sum modes)
+E_ZERO_CUTOFFS = [-1.0, 0.0, 1e-10, 0.3, 2.0]
+E_RENORMS = [None, 2]
+
+
+def cell_E(cell, common):
+    """Inputs on which EVERY value fails the cutoff rule: a graded spectrum
+    with cutoffs at / above its largest value, and the exactly zero matrix
+    with any cutoff (including the defaults).  The statement: never zero
+    values kept, never above the cap; shapes consistent, factors finite."""
+    method, form, dtype, shape, spec, mode = cell["method"], cell["form"], cell["dtype"], tuple(cell["shape"]), cell["spec"], cell["mode"]
+    d = DOC[method]
+    res = []
+    cache = {}
+    cutoffs = E_ZERO_CUTOFFS if spec == "zero" else E_CUTOFFS
+    for cutoff, mb, renorm in itertools.product(cutoffs, [None, 2], E_RENORMS):
+        trunc_requested = cutoff > 0 or mb is not None
+        base, eff = resolve(method, form, trunc_requested)
+        if eff not in cache:
+            x = make_matrix(base, eff, shape, spec, dtype)
+            if x is None and DOC[base]["inp"] == "fullrank":
+                x = make_matrix(base, eff, shape[::-1], spec, dtype)
+            cache[eff] = x
+        x = cache[eff]
+        if x is None:
+            res.append(table.rejected("no-domain-member:%s:%s:%s" % (method, fname(form), spec)))
+            continue
+        for impl in cell["impls"]:
+            for use_info in ((False, True) if d["info"] else (False,)):
                 res.append(evaluate(x, method, form, cutoff, mode, mb, renorm, impl, use_info, dtype, spec=spec))
     return res
 
@@ -851,6 +976,8 @@ TENSORS = {
     "T4": dict(shape=(2, 3, 1, 2), inds=("a", "b", "c", "d")),
     "T3b": dict(shape=(3, 2, 2), inds=("a", "b", "c")),
     "TH": dict(shape=(2, 2, 2, 2), inds=("a", "b", "c", "d")),
+    "T3z": dict(shape=(2, 1, 3), inds=("a", "b", "c")),  # exactly zero
+    "THz": dict(shape=(2, 2, 2, 2), inds=("a", "b", "c", "d")),  # exactly zero (hermitian over ab|cd)
 }
 D_FORMS = [f for f in FORMS if f != "s"]  # tensor_split does not document 's' (use get='values')
 D_VARIANTS = {
@@ -866,8 +993,19 @@ D_TRUNC = {
 }
 
 
+# every value fails the rule: the tensor_split defaults (cutoff=1e-10, 'rel') on a zero tensor, 'rel' with
+# cutoff 1, an 'abs' cutoff above the largest value
+D_TRUNC_X = {
+    "default": dict(),
+    "rel1": dict(cutoff=1.0, cutoff_mode="rel"),
+    "abs50": dict(cutoff=50.0, cutoff_mode="abs"),
+}
+
+
 def make_tensor_data(tname, dtype, kind="generic"):
     spec = TENSORS[tname]
+    if tname.endswith("z"):
+        return np.zeros(spec["shape"], dtype=dtype)
     if tname == "TH":
         lam = [1.0, 0.5, 0.25, 0.1] if kind == "psd" else [1.0, -0.5, 0.25, -0.1]
         return fill("spectrum", (4, 4), dtype, key=("c05", "TH", kind), lam=lam).reshape(spec["shape"])
@@ -915,13 +1053,15 @@ def cell_D(cell, common):
     inds = tuple(spec["inds"])
     sub = None
     entry = "tensor_split"
-    trunc_opts = dict(D_TRUNC[tr])
-    cutoff = trunc_opts.get("cutoff")
+    trunc_opts = dict(D_TRUNC[tr] if tr in D_TRUNC else D_TRUNC_X[tr])
+    cutoff = trunc_opts.get("cutoff", 1e-10)  # tensor_split default
     mode = trunc_opts.get("cutoff_mode", "rel")  # tensor_split default
     mb = trunc_opts.get("max_bond")
     trunc_requested = (cutoff is not None and cutoff > 0) or mb is not None
     base, eff = resolve(method, form, trunc_requested)
     kind, prec = DOC[base]["kind"], DOC[base]["prec"]
+    if tname.endswith("z") and DOC[base]["inp"] in ("pd", "fullrank"):
+        return table.rejected("no-domain-member:%s:zero" % method)
     if kind == "iter" and cutoff == 0.0 and mb is None:
         # the iterative drivers cannot be called with cutoff=0.0 / no cap (known finding at array level,
         # table B); the tensor level uses the spelling that works so that the wrapping is what is tested
@@ -937,7 +1077,7 @@ def cell_D(cell, common):
     ldims = tuple(data.shape[inds.index(i)] for i in left)
     rdims = tuple(data.shape[inds.index(i)] for i in right)
 
-    roots = root_of(method, base, form, eff, dtype, "accel", cutoff, mode, mb, 0, shape=tuple(M.shape))
+    roots = root_of(method, base, form, eff, dtype, "accel", cutoff, mode, mb, 0, shape=tuple(M.shape), zero=not np.any(M))
     if msv and form is not None:
         roots.append("matrix-svals-with-absorbed-form")  # bond naming is done by tensor_split itself
 
@@ -1401,6 +1541,8 @@ def run(ctx):
         "V": {"methods": ["default", "svd", "svd:eig", "eig", "auto", "qr"], "dtypes": DTYPES},
         "L": {"operator": "two tensors (2,3,2) sharing one label, 6x6 of rank 2", "dtypes": DTYPES if thorough else ["float64", "complex128"]},
         "H": {"renorm_pairs": [repr(r) for r in H_RENORMS], "methods": ["svd", "svd:eig", "eigh"]},
+        "E": {"inputs": "graded spectrum with cutoff in %s (all six modes); exactly zero matrix with cutoff in %s" % (E_CUTOFFS, E_ZERO_CUTOFFS), "max_bond": "None, 2", "renorm": "None, 2", "dtypes": DTYPES if thorough else ["float64", "complex128"], "shapes": [(4, 3), (3, 4)] if thorough else [(4, 3)]},
+        "D3": {"tensors": "generic and exactly zero (2,1,3); hermitian and exactly zero (2,2,2,2)", "truncation": sorted(D_TRUNC_X) + ["none, cap1 on the zero tensors"]},
         "matrix_size_max": "4x4 (array level), 6x6 (operator level)",
     }
     ctx.notes["observations_not_counted_as_violations"] = [
@@ -1423,6 +1565,19 @@ def run(ctx):
             cells.append({"t": "A", "method": method, "form": form, "dtype": dtype, "shape": list(shp), "spec": spec, "mode": mode, "impls": impls_for(method, full)})
         table.run(ctx, "cell_A", cells, name="A:method x form x mode x truncation grid", chunk=8)
         ctx.subproducts.append("A: method(%d) x form(12) x cutoff_mode(6) x cutoff(5) x max_bond(5) x renorm(4) on shapes %s, dtypes %s, spectra %s; accelerated vs batch-of-one vs _default_fn complete for svd, svd:eig, eigh, qr; info on/off for svd, svd:eig" % (len(methods), shapes_A, dt_A, spectra_A))
+
+    # ---- E ---------------------------------------------------------------- #
+    if only in (None, "E"):
+        cells = []
+        dt_E = DTYPES if thorough else ["float64", "complex128"]
+        shapes_E = [(4, 3), (3, 4)] if thorough else [(4, 3)]
+        for dtype, shape, spec, method, form, mode in itertools.product(dt_E, shapes_E, ["graded", "zero"], methods, FORMS, MODES):
+            shp = shape
+            if DOC[method]["inp"] in ("herm", "pd"):
+                shp = (max(shape), max(shape))
+            cells.append({"t": "E", "method": method, "form": form, "dtype": dtype, "shape": list(shp), "spec": spec, "mode": mode, "impls": impls_for(method, method in ("svd", "svd:eig", "eigh", "qr"))})
+        table.run(ctx, "cell_E", cells, name="E:every value fails the rule", chunk=16)
+        ctx.subproducts.append("E: method x form x cutoff_mode x {graded spectrum with cutoff in %s; exactly zero matrix with cutoff in %s} x max_bond{None, 2} x renorm{None, 2} on shapes %s, dtypes %s; accelerated, batch-of-one and _default_fn for svd, svd:eig, eigh, qr; info on/off" % (E_CUTOFFS, E_ZERO_CUTOFFS, shapes_E, dt_E))
 
     # ---- B ---------------------------------------------------------------- #
     if only in (None, "B"):
@@ -1465,9 +1620,17 @@ def run(ctx):
                 if variant == "plain" and tr == "none" and not left_none and right_given is None:
                     continue  # already in D1
                 cells.append({"t": "D", "tensor": "T3", "left": list(left), "right": None if right_given is None else list(right_given), "left_none": left_none, "method": method, "form": form, "get": get, "dtype": dtype, "variant": variant, "trunc": tr})
+        n2 = len(cells)
+        # D3: every value fails the rule (zero tensor with the default options; cutoffs at / above the largest value)
+        for dtype in dts:
+            for tname, meths, bips in (("T3", nonherm, [("a",), ("a", "b"), ("c", "a")]), ("T3z", nonherm, [("a",), ("a", "b"), ("c", "a")]), ("TH", hermm, [("a", "b")]), ("THz", hermm, [("a", "b")])):
+                truncs = list(D_TRUNC_X) + (["none", "cap1"] if tname.endswith("z") else [])
+                for left, method, form, get, tr in itertools.product(bips, meths, D_FORMS, [None, "tensors", "arrays"], truncs):
+                    cells.append({"t": "D", "tensor": tname, "left": list(left), "right": None, "method": method, "form": form, "get": get, "dtype": dtype, "variant": "plain", "trunc": tr})
         table.run(ctx, "cell_D", cells, name="D:tensor_split bipartition x method x form x get (+ options product)", chunk=64)
+        ctx.subproducts.append("D3: {generic T3, zero T3z} x 3 bipartitions and {hermitian TH, zero THz} x (ab|cd) x every method x form(11) x get(3) x truncation{tensor_split defaults, cutoff=1 rel, cutoff=50 abs; + none, max_bond=1 on the zero tensors}: %d cells" % (len(cells) - n2))
         ctx.subproducts.append("D1: tensors %s x every ordered bipartition spec (all non-empty proper subsets, sorted and reversed order, explicit reversed right_inds, + the two degenerate bipartitions) x method x form(11, no 's') x get(None, tensors, arrays), untruncated: %d cells" % (["T3", "T4", "T3b", "TH"] if thorough else ["T3", "T4", "TH"], n1))
-        ctx.subproducts.append("D2: 5 left/right specs of T3 (incl. left_inds=None with right_inds given) x 8 methods x form(11) x get(3) x options{plain, bond_ind+ltags+rtags+stags, matrix_svals, matrix_svals+bond pair} x truncation{none, max_bond=1, cutoff=0.3 rel}: %d cells" % (len(cells) - n1))
+        ctx.subproducts.append("D2: 5 left/right specs of T3 (incl. left_inds=None with right_inds given) x 8 methods x form(11) x get(3) x options{plain, bond_ind+ltags+rtags+stags, matrix_svals, matrix_svals+bond pair} x truncation{none, max_bond=1, cutoff=0.3 rel}: %d cells" % (n2 - n1))
         # V: get='values'
         cells = []
         for dtype in DTYPES:
